@@ -20,7 +20,8 @@ func checkC19(p *Program, r *Result) {
 	r.Explanation = "Structural necessary conditions of 'ROS 1 message definitions always parse in bounded time and stack, never crash', over go/ros/ros1msg functions reachable from ParseMessageDefinition: " +
 		"(C19.a) every call-graph cycle carries a termination guard — a map/set parameter that is looked up (hit => return) and updated before the recursive call, or an integer parameter that changes by a constant and is compared against a bound that returns; " +
 		"(C19.b) a slice expression whose two bounds come from independent substring searches is dominated by a comparison that orders them; " +
-		"(C19.c) pattern matching uses only package regexp (RE2, linear time); (C19.e) no panic/exit call; (C19.h) errors of the recursive resolution are propagated."
+		"(C19.c) pattern matching uses only package regexp (RE2, linear time); (C19.e) no panic/exit call; (C19.h) errors of the recursive resolution are propagated; " +
+		"and of 'the returned tree is the one described': (C19.k) type names are matched verbatim, (C19.l) no loop-carried value flows into the Field/Type built for a line (each field is classified from its own line alone)."
 	r.NotDecided = []string{"that the returned field tree is the one the definition describes (run-time)", "output size (a DAG-shaped definition expands to a tree)"}
 	r.rule("C19.a", "recursion over untrusted definitions carries a cycle/depth guard", 1)
 	r.rule("C19.b", "slice bounds from independent searches are ordered by a dominating comparison", 1)
@@ -80,6 +81,8 @@ func checkC19(p *Program, r *Result) {
 			}
 		}
 	}
+	r.rule("C19.l", "per-field state does not survive from one field line to the next", 4)
+	checkPerFieldState(p, r, fns)
 	// ---- C19.k: type names are looked up exactly: a literal prefix is removed with TrimPrefix/CutPrefix, never with
 	// a cutset function (which removes characters, eating the first letters of the name).
 	r.rule("C19.k", "dependency names are taken verbatim (prefix removal, not cutset trimming)", 1)
